@@ -1,8 +1,8 @@
 (* Correspondence for C16: runs Model.Auth on the byte chunks the scripted client wrote to a
    real server peer carrying the auth checker plugin.
-   case inputs  = (nLIMIT (nRECVS sPROPAGATE sMODE xTOKEN) (xCHUNK ...))
+   case inputs  = (nLIMIT (nRECVS sPROPAGATE sMODE xTOKEN nPANIC-AT sBEFORE sAFTER) (xCHUNK ...))
    observations = ((sSERVED nINDEXED sLISTED) sEOF-BEFORE (sSERVED nINDEXED sLISTED)
-                   (nRECVONCE-CALLS nREFUSED) (zAUTH-REPLY-CODE ...) nNEXT-POSTACCEPT nPOSTDISCONNECT
+                   (nRECVONCE-CALLS nREFUSED) (zAUTH-REPLY-CODE ...) (nOTHER-BEFORE nOTHER-AFTER) nNEXT-POSTACCEPT nPOSTDISCONNECT
                    (nHOOK x16) (zCALL-SEQ ...) (zPUSH-SEQ ...) ((zSEQ zCODE) ...) nOTHER-FRAMES)  *)
 From Coq Require Import Strings.String Strings.Byte.
 From Coq Require Import List Arith NArith ZArith Bool Lia.
@@ -52,9 +52,13 @@ Fixpoint pinsert (x : Z * Z) (l : list (Z * Z)) : list (Z * Z) :=
   match l with [] => [x] | y :: r => if ple x y then x :: l else y :: pinsert x r end.
 Definition psort (l : list (Z * Z)) : list (Z * Z) := fold_right pinsert [] l.
 
+Definition hookb_of (v : val) : option hookb :=
+  if sym_eqb v "ok" then Some HOk else if sym_eqb v "reject" then Some HReject
+  else if sym_eqb v "panic" then Some HPanic else None.
+
 Definition snapshot (s : st) : val :=
   let served := match ph s with
-                | Preparing => vsym "blocked"
+                | Fresh | Preparing => vsym "blocked"
                 | _ => if accepted s then vsym "accepted" else vsym "rejected"
                 end in
   VL [served; VN (if indexed s then 1 else 0); vbool (indexed s)].
@@ -83,7 +87,7 @@ Definition run_bearer (limit sends : N) (prop : bool) (reply : bytes) (closes : 
   let '(res, sent) := bearer status_code_simple (N.to_nat sends) prop (option_map fst first) in
   let ok := match res with DialOk => true | DialFail _ => false end in
   let loop_buf := match sends, first with 0, _ => [] | _, Some (_, rest) => rest | _, None => [] end in
-  let fin := pump status_code_simple info_dec_simple nobody nobody limit (mkChecker 1 false (fun _ => true))
+  let fin := pump status_code_simple info_dec_simple nobody nobody limit (mkChecker 1 false (fun _ => true) 0 None None)
                   (mkSt (Running false) loop_buf true false true true []) in
   let t := if ok then trace fin else [] in
   VL [vbool ok; VN (if ok && negb closes then 1 else 0); VN (N.of_nat sent); VN 0; vbool true;
@@ -97,14 +101,15 @@ Definition run (inp : val) : option val :=
       if sym_eqb tag "bearer"
       then Some (run_bearer limit sends (sym_eqb prop "true") reply (sym_eqb closes "true"))
       else None
-  | VL [VN limit; VL [VN recvs; prop; mode; VB token]; VL chunks] =>
+  | VL [VN limit; VL [VN recvs; prop; mode; VB token; VN panic_at; hb; ha]; VL chunks] =>
       match chunks_of chunks with
       | None => None
       | Some cs =>
           let verify := if sym_eqb mode "all" then (fun _ => true)
                         else if sym_eqb mode "none" then (fun _ => false)
                         else (fun i => bytes_eqb i token) in
-          let ck := mkChecker (N.to_nat recvs) (sym_eqb prop "true") verify in
+          let ck := mkChecker (N.to_nat recvs) (sym_eqb prop "true") verify (N.to_nat panic_at)
+                              (hookb_of hb) (hookb_of ha) in
           let stp := step status_code_simple info_dec_simple route_call_h route_push_h limit ck in
           let s0 := pump status_code_simple info_dec_simple route_call_h route_push_h limit ck init in
           let mid := fold_left stp (map Bytes cs) s0 in
@@ -115,6 +120,8 @@ Definition run (inp : val) : option val :=
                     VL [VN (count_ev (fun e => match e with EvRecv | EvMultiRecv => true | _ => false end) t);
                         VN (count_ev (fun e => match e with EvMultiRecv => true | _ => false end) t)];
                     VL (flat_map (fun e => match e with EvAuthReply c => [VZ (canon c)] | _ => [] end) t);
+                    VL [VN (count_ev (fun e => match e with EvPlugin false => true | _ => false end) t);
+                        VN (count_ev (fun e => match e with EvPlugin true => true | _ => false end) t)];
                     VN (count_ev (fun e => match e with EvNextAccept => true | _ => false end) t);
                     VN (count_ev (fun e => match e with EvDisconnect => true | _ => false end) t);
                     VL (hooks_of t);
